@@ -579,11 +579,16 @@ def _run(w, plan):
         res.harness_error = "warm-up never finished"
         return w.finish()
     run_until(state["t0"] + plan["t_end"] + 0.001)
-    tail = sim.now + max(45.0, 4 * timeout + 40.0)
+    allow = max(45.0, 4 * timeout + 40.0)
+    tail = sim.now + allow
     while sim.now < tail and not sim.overrun and not sim.livelock and res.harness_error is None:
         run_until(sim.now + 5.0)
         if all(c["w"] is None or c["w"].fires for c in calls.values()) and not reactor.pending("client.py"):
             break
+        # a call issued from the result callback of a long call (a join that timed out) starts late: it gets the same allowance
+        late = [c["t"] for c in calls.values() if c["w"] is not None and not c["w"].fires]
+        if late:
+            tail = max(tail, max(late) + allow)
     unresolved = [c["id"] for c in calls.values() if c["w"] is not None and not c["w"].fires]
     if not state["closed"]:
         # what the client believes right before the final close (C08 compares it with the last metadata answers)
